@@ -309,6 +309,7 @@ def check(ctx):
         ctx.floor("C03.P", "element-moving closures (%s)" % cfg, p, 12 if cfg == "F0" else 13)
         r = c05.check_drop_ranges(ctx, cfg)
         ctx.floor("C03.R", "owner Drop impls (%s)" % cfg, r, 4)
+        c04.check_finish_window(ctx, cfg, "C03.W")
         f = check_finishers(ctx, cfg)
         ctx.floor("C03.F", "finisher sites (%s)" % cfg, f, 6 if cfg == "F0" else 9)
         # C03.I iterator primitives: next / next_back read exactly the slot their index update excludes, nth / nth_back destroy exactly
